@@ -48,6 +48,19 @@ var documented = func() map[string]bool {
 type ErrCase struct {
 	SQL   string `json:"sql"`
 	Entry string `json:"entry"`
+	// Limit is "nesting" when the input was built to exceed the documented nesting depth (and is otherwise
+	// well-formed): the dedicated limit code must then be reachable in the error's unwrap chain
+	Limit string `json:"limit,omitempty"`
+}
+
+// chainHasCode reports whether some *errors.Error in err's unwrap chain carries the code.
+func chainHasCode(err error, code goerrors.ErrorCode) bool {
+	for e := err; e != nil; e = errors.Unwrap(e) {
+		if se, ok := e.(*goerrors.Error); ok && se.Code == code {
+			return true
+		}
+	}
+	return false
 }
 
 var entries = []string{"gosqlx.Parse", "gosqlx.Validate", "gosqlx.ParseWithContext", "gosqlx.ParseMultiple", "gosqlx.ValidateMultiple",
@@ -194,6 +207,15 @@ func oracleErr(c ErrCase) error {
 		errors.As(errs[i], &se)
 		if se.Cause != nil && !errors.Is(errs[i], se.Cause) {
 			return fmt.Errorf("[%s] wrapped cause %q is not reachable with errors.Is", c.Entry, firstLine(se.Cause))
+		}
+	}
+	if c.Limit == "nesting" && lexErr == nil {
+		found := false
+		for _, e := range errs {
+			found = found || chainHasCode(e, goerrors.ErrCodeRecursionDepthLimit)
+		}
+		if !found {
+			return fmt.Errorf("[%s] nesting beyond the depth limit is reported as %s without the dedicated code %s anywhere in the unwrap chain: %s", c.Entry, ss[0].code, goerrors.ErrCodeRecursionDepthLimit, firstLine(errs[0]))
 		}
 	}
 	// reproducible: same call again, and after unrelated activity
@@ -413,7 +435,13 @@ func genStructuredErrors(rt *rapid.T) ErrCase {
 	}
 	hx.Case("structured_errors", nt && code != "", e+"|"+strings.Join(cl, ",")+fmt.Sprint(len(s)/8), append(cl, "entry_"+e)...)
 	hx.Sample("structured_errors", map[string]string{"entry": e, "sql": s})
-	return ErrCase{SQL: s, Entry: e}
+	lim := ""
+	for _, c := range cl {
+		if c == "limit_nesting" {
+			lim = "nesting"
+		}
+	}
+	return ErrCase{SQL: s, Entry: e, Limit: lim}
 }
 
 // FuzzStructuredErrors: coverage-guided search over the same generator (thorough tier).
